@@ -49,21 +49,32 @@ type c13Machine struct {
 	htlcRefunds, farmEnds, svcExpiries, randomsDue int
 	multiDue, sameBlockMod                         int
 	okTxs                                          int
+	start                                          int64
 }
 
-func newC13() pbt.Machine[blockOp] {
+func newC13() pbt.Machine[blockOp] { return &c13Machine{} }
+
+// build creates the node at the initial height named by the first operation.
+func (m *c13Machine) build(start int64) {
+	if start < 1 {
+		start = 1
+	}
 	o := nodeOpts
 	o.WhaleBits = 130
-	n, err := chain.NewNode(o, nil, 1)
+	n, err := chain.NewNode(o, nil, start)
 	if err != nil {
 		panic(err)
 	}
-	m := &c13Machine{n: n}
+	m.n, m.start = n, start
 	m.h = &hist{n: n, w: newWorld(), rich: 4, dueBias: true, maxIdle: 60}
-	return m
 }
 
-func (m *c13Machine) Next(t *rapid.T) blockOp { return m.h.nextBlock(t, 5) }
+func (m *c13Machine) Next(t *rapid.T) blockOp {
+	if m.n == nil {
+		return blockOp{Genesis: "default", Start: drawStart(t)}
+	}
+	return m.h.nextBlock(t, 5)
+}
 
 type dueSet struct {
 	htlc   []string // open contracts with expiry == next height
@@ -109,6 +120,12 @@ func (m *c13Machine) dueNext() dueSet {
 }
 
 func (m *c13Machine) Apply(op blockOp) error {
+	if m.n == nil {
+		m.build(op.Start)
+		if op.Genesis != "" {
+			return nil
+		}
+	}
 	for _, b := range expandIdle(op) {
 		if err := m.applyOne(b); err != nil {
 			return err
@@ -312,6 +329,9 @@ func (m *c13Machine) Finish() error { return nil }
 
 func (m *c13Machine) Classify() (bool, []string) {
 	var cl []string
+	if m.n == nil {
+		return false, nil
+	}
 	add := func(ok bool, s string) {
 		if ok {
 			cl = append(cl, s)
@@ -325,6 +345,8 @@ func (m *c13Machine) Classify() (bool, []string) {
 	add(m.sameBlockMod > 0, "txs-in-a-due-block")
 	add(len(m.h.w.modules) >= 8, "modules>=8")
 	add(passedProposals(m.n) > 0, "params-changed-by-proposal")
+	add(m.start > 1 && (m.start-1)>>8 != m.n.Height>>8, "height-crossed-a-byte-boundary")
+	add(m.start > 1<<31, "heights-beyond-2^32")
 	cl = append(cl, m.h.w.shapeClasses()...)
 	return m.multiDue > 0 && m.sameBlockMod > 0, cl
 }
